@@ -218,6 +218,8 @@ fn run(run: &mut Run) {
     run.assume("'No valid label location' for a library containing a named non-rectilinear polygon is the documented refusal");
     run.min_nontrivial = 200;
     run.explore("roundtrip", run.tier.pick(400_000, 5_000_000), 900, &main_case);
+    // the same, each case in a thread of its own (per-thread state of the code starts from scratch)
+    run.explore_fresh("roundtrip", run.tier.pick(3_000, 40_000), 900, &main_case);
     run.explore("deep-chains", run.tier.pick(6_000, 60_000), 900, &deep_case);
 }
 fn case(sub: &str) -> Option<Box<CaseFn<'static>>> {
